@@ -6,18 +6,18 @@ namespace Abverif.Comp
 open Spec
 
 /-- result of an emitter: checks pass along its output and the full relation holds afterwards -/
-structure StepOK (c : Conf) (hm : Bool) (k : Core) (r : State × List Obs) : Prop where
-  chk : ChecksOK c hm k r.2
+structure StepOK (c : Conf) (k : Core) (r : State × List Obs) : Prop where
+  chk : ChecksOK c k r.2
   rel : Rel c r.1 (feedAll c k r.2)
 
 /-! ### a connection attempt -/
 
-theorem att_checks {c : Conf} {trs : List Tr} {hm : Bool} {done : Option Bool} {k : Core}
-    (h : RelT c trs hm done k) (i : Nat) (t : Tr) (hg : trs[i]? = some t) (hcan : t.canReconnect = true)
+theorem att_checks {c : Conf} {trs : List Tr} {done : Option Bool} {k : Core}
+    (h : RelT c trs done k) (i : Nat) (t : Tr) (hg : trs[i]? = some t) (hcan : t.canReconnect = true)
     (w tm : Q)
     (hw : w = Q.zero ∨ (t.attempts ≠ 0 ∧ ((0 ≤ (c.maxD i).num) → w.le (c.maxD i) = true)))
-    (hrr : c.resetOnJoin = hm → firstElig c k (startOf k.last) = some i) :
-    ChecksOK c hm k [.att i w tm] := by
+    (hrr : firstElig c k (startOf k.last) = some i) :
+    ChecksOK c k [.att i w tm] := by
   have r := h.tr i t hg
   have hc := hcan
   unfold Tr.canReconnect at hc
@@ -29,7 +29,7 @@ theorem att_checks {c : Conf} {trs : List Tr} {hm : Bool} {done : Option Bool} {
     by_cases h1 : t.maxRetries = -1
     · simp [h1]
     · simp only [h1, if_false, decide_eq_true_eq] at hc
-      have := r.cnt_le
+      have := r.cnt_eq
       simp [h1]; omega
   · simp [specAll, finTrue, chkFatal, r.failed, hpf]
   · simp only [specAll, finTrue, Bool.and_true, chkFirst]
@@ -44,18 +44,16 @@ theorem att_checks {c : Conf} {trs : List Tr} {hm : Bool} {done : Option Bool} {
     rcases hw with rfl | ⟨_, hle⟩
     · exact Q.zero_le _ (hnn i)
     · exact hle (hnn i)
-  · intro heq
-    simp [specAll, finTrue, chkRoundRobin, hrr heq]
-  · intro _
-    simp [specAll, finTrue, chkGiveUp]
+  · simp [specAll, finTrue, chkRoundRobin, hrr]
+  · simp [specAll, finTrue, chkGiveUp]
 
 /-- `attempt_connect` from a state in which transport `i` was legitimately chosen -/
-theorem attempt_ok {c : Conf} {s : State} {k : Core} (h : RelT c s.trs s.cfg.hasMain s.done k)
+theorem attempt_ok {c : Conf} {s : State} {k : Core} (h : RelT c s.trs s.done k)
     (i : Nat) (t : Tr) (hg : s.trs[i]? = some t) (hcan : t.canReconnect = true) (w : Q)
     (hw : w = Q.zero ∨ (t.attempts ≠ 0 ∧ ((0 ≤ (c.maxD i).num) → w.le (c.maxD i) = true)))
-    (hrr : c.resetOnJoin = s.cfg.hasMain → firstElig c k (startOf k.last) = some i)
+    (hrr : firstElig c k (startOf k.last) = some i)
     (hcur : s.cursor = (i + 1) % c.n) :
-    StepOK c s.cfg.hasMain k (attemptConnect i w s) := by
+    StepOK c k (attemptConnect i w s) := by
   refine ⟨att_checks h i t hg hcan w s.now hw hrr, ?_⟩
   refine ⟨?_, ?_⟩
   · simpa [attemptConnect, feedAll] using h.att i w s.now
@@ -65,35 +63,46 @@ theorem attempt_ok {c : Conf} {s : State} {k : Core} (h : RelT c s.trs s.cfg.has
 
 /-! ### completions -/
 
-theorem RelT.setDone {c : Conf} {trs : List Tr} {hm : Bool} {k : Core} {ok : Bool}
-    (h : RelT c trs hm none k) : RelT c trs hm (some ok) (k.feed c (.done ok)) :=
+theorem RelT.setDone {c : Conf} {trs : List Tr} {k : Core} {ok : Bool}
+    (h : RelT c trs none k) : RelT c trs (some ok) (k.feed c (.done ok)) :=
   h.core_congr rfl rfl rfl rfl
 
-theorem done_checks_true {c : Conf} {hm : Bool} {k : Core} (hd : k.done = none) :
-    ChecksOK c hm k [.done true] := by
+theorem done_checks_true {c : Conf} {k : Core} (hd : k.done = none) :
+    ChecksOK c k [.done true] := by
   refine ⟨?_, ?_, ?_, ?_, ?_, ?_, ?_⟩ <;>
     simp [specAll, finTrue, chkBudget, chkFatal, chkFirst, chkDoneOnce, chkDelay, chkRoundRobin, chkGiveUp, hd]
 
-theorem done_checks_false {c : Conf} {trs : List Tr} {hm : Bool} {k : Core} (h : RelT c trs hm none k)
-    (hany : trs.any Tr.canReconnect = false) : ChecksOK c hm k [.done false] := by
+theorem done_checks_false {c : Conf} {trs : List Tr} {k : Core} (h : RelT c trs none k)
+    (hany : trs.any Tr.canReconnect = false) : ChecksOK c k [.done false] := by
   refine ⟨?_, ?_, ?_, ?_, ?_, ?_, ?_⟩
   · simp [specAll, finTrue, chkBudget]
   · simp [specAll, finTrue, chkFatal]
   · simp [specAll, finTrue, chkFirst]
   · simp [specAll, finTrue, chkDoneOnce, h.done_eq]
   · intro _; simp [specAll, finTrue, chkDelay]
-  · intro _; simp [specAll, finTrue, chkRoundRobin]
-  · intro heq
-    simp [specAll, finTrue, chkGiveUp, anyElig_eq h heq, hany]
+  · simp [specAll, finTrue, chkRoundRobin]
+  · simp [specAll, finTrue, chkGiveUp, anyElig_eq h, hany]
 
 /-! ### `transport_check` -/
 
 theorem tc_ok {c : Conf} {s : State} {k : Core} (h : RelM c s k) :
-    StepOK c s.cfg.hasMain k (transportCheck s) := by
+    StepOK c k (transportCheck s) := by
   have hT := h.t
   have hcs := tc_cases s
   generalize transportCheck s = r at hcs ⊢
   cases hcs with
+  | stopped hs =>
+    unfold stopCheck
+    cases hd : s.done with
+    | none =>
+      rw [hd] at hT
+      refine ⟨done_checks_true (by rw [hT.done_eq]), ⟨?_, ?_⟩⟩
+      · simpa [feedAll] using hT.setDone (ok := true)
+      · simp [PhaseOK]
+    | some b =>
+      refine ⟨ChecksOK.nil _ _, ⟨?_, ?_⟩⟩
+      · simpa [feedAll, hd] using hT
+      · simp [PhaseOK, hd]
   | giveUp hany =>
     unfold Comp.setDone
     cases hd : s.done with
@@ -103,13 +112,13 @@ theorem tc_ok {c : Conf} {s : State} {k : Core} (h : RelM c s k) :
       · simpa [feedAll] using hT.setDone (ok := false)
       · simp [PhaseOK]
     | some b =>
-      refine ⟨ChecksOK.quiet _ _ _ _ (by simp [Obs.quiet]), ⟨?_, ?_⟩⟩
+      refine ⟨ChecksOK.quiet _ _ _ (by simp [Obs.quiet]), ⟨?_, ?_⟩⟩
       · simpa [feedAll, Core.feed, hd] using hT
       · simp [PhaseOK, hd]
   | wait i t t' d hpick hget hcan hnd hpos =>
     have nf := Tr.nextDelay_facts t t' _ d hnd
-    have hT' : RelT c (updAt (fun _ => t') s.trs i) s.cfg.hasMain s.done k := by
-      refine ⟨by rw [updAt_length]; exact hT.n_eq, ?_, hT.done_eq, hT.rj⟩
+    have hT' : RelT c (updAt (fun _ => t') s.trs i) s.done k := by
+      refine ⟨by rw [updAt_length]; exact hT.n_eq, ?_, hT.done_eq⟩
       intro j tj hg
       rw [updAt_get] at hg
       by_cases hji : j = i
@@ -119,7 +128,7 @@ theorem tc_ok {c : Conf} {s : State} {k : Core} (h : RelM c s k) :
         exact (hT.tr _ t hget).of_eq rfl rfl rfl nf.mr nf.maxD nf.att nf.pf
       · simp only [hji, if_false] at hg
         exact hT.tr j tj hg
-    refine ⟨ChecksOK.nil _ _ _, ⟨by simpa [tcState, feedAll] using hT', ?_⟩⟩
+    refine ⟨ChecksOK.nil _ _, ⟨by simpa [tcState, feedAll] using hT', ?_⟩⟩
     simp only [PhaseOK, tcState, feedAll, List.foldl_nil]
     refine ⟨t', updAt_get_same _ _ _ _ hget, ?_, ?_, ?_, ?_, ?_⟩
     · rw [Tr.canReconnect_congr t t' nf.mr nf.att nf.pf]; exact hcan
@@ -127,13 +136,12 @@ theorem tc_ok {c : Conf} {s : State} {k : Core} (h : RelM c s k) :
     · intro hnn
       rw [(hT.tr i t hget).maxD] at hnn ⊢
       exact nf.le hnn
-    · intro heq
-      rw [firstElig_eq_pick hT heq, ← h.cur]; exact hpick
+    · rw [firstElig_eq_pick hT, ← h.cur]; exact hpick
     · rw [hT.n_eq]
   | now i t t' d hpick hget hcan hnd hpos =>
     have nf := Tr.nextDelay_facts t t' _ d hnd
-    have hT' : RelT c (tcState s i t t').trs (tcState s i t t').cfg.hasMain (tcState s i t t').done k := by
-      refine ⟨by simp only [tcState]; rw [updAt_length]; exact hT.n_eq, ?_, hT.done_eq, hT.rj⟩
+    have hT' : RelT c (tcState s i t t').trs (tcState s i t t').done k := by
+      refine ⟨by simp only [tcState]; rw [updAt_length]; exact hT.n_eq, ?_, hT.done_eq⟩
       intro j tj hg
       simp only [tcState] at hg
       rw [updAt_get] at hg
@@ -147,7 +155,7 @@ theorem tc_ok {c : Conf} {s : State} {k : Core} (h : RelM c s k) :
     have := attempt_ok (c := c) (s := tcState s i t t') (k := k) hT' i t'
       (by simp only [tcState]; exact updAt_get_same _ _ _ _ hget)
       (by rw [Tr.canReconnect_congr t t' nf.mr nf.att nf.pf]; exact hcan) Q.zero (Or.inl rfl)
-      (by intro heq; rw [firstElig_eq_pick hT heq, ← h.cur]; exact hpick)
+      (by rw [firstElig_eq_pick hT, ← h.cur]; exact hpick)
       (by simp only [tcState]; rw [hT.n_eq])
     exact this
 
@@ -184,21 +192,21 @@ theorem all_quiet_iff (l : List Obs) : l.all Obs.quiet = true ↔ ∀ o ∈ l, o
 @[simp] theorem joinedPre_all_quiet (cfg : Cfg) (n i : Nat) : (joinedPre cfg n i).all Obs.quiet = true := by
   simp [joinedPre, List.all_append, Obs.quiet]
 
-theorem StepOK.wrap {c : Conf} {hm : Bool} {k k1 : Core} {r : State × List Obs} {out pre post : List Obs}
-    (h : StepOK c hm k1 r) (hout : out = pre ++ r.2 ++ post) (hpre : pre.all Obs.quiet = true)
-    (hk : feedAll c k pre = k1) (hpost : post.all Obs.neutral = true) : StepOK c hm k (r.1, out) := by
+theorem StepOK.wrap {c : Conf} {k k1 : Core} {r : State × List Obs} {out pre post : List Obs}
+    (h : StepOK c k1 r) (hout : out = pre ++ r.2 ++ post) (hpre : pre.all Obs.quiet = true)
+    (hk : feedAll c k pre = k1) (hpost : post.all Obs.neutral = true) : StepOK c k (r.1, out) := by
   subst hout
   have hpn := (all_neutral_iff _).mp hpost
   constructor
-  · refine ChecksOK.append (ChecksOK.append (ChecksOK.quiet _ _ _ _ ((all_quiet_iff _).mp hpre)) ?_) ?_
+  · refine ChecksOK.append (ChecksOK.append (ChecksOK.quiet _ _ _ ((all_quiet_iff _).mp hpre)) ?_) ?_
     · rw [hk]; exact h.chk
-    · exact ChecksOK.quiet _ _ _ _ (fun o ho => neutral_quiet o (hpn o ho))
+    · exact ChecksOK.quiet _ _ _ (fun o ho => neutral_quiet o (hpn o ho))
   · show Rel c r.1 (feedAll c k (pre ++ r.2 ++ post))
     rw [feedAll_append, feedAll_append, hk, feedAll_neutral _ _ _ hpn]
     exact h.rel
 
-theorem StepOK.stutter {c : Conf} {s : State} {k : Core} (h : Rel c s k) : StepOK c s.cfg.hasMain k (s, []) :=
-  ⟨ChecksOK.nil _ _ _, h⟩
+theorem StepOK.stutter {c : Conf} {s : State} {k : Core} (h : Rel c s k) : StepOK c k (s, []) :=
+  ⟨ChecksOK.nil _ _, h⟩
 
 /-! ### cfg is never changed -/
 
@@ -209,6 +217,7 @@ theorem tc_cfg (s : State) : (transportCheck s).1.cfg = s.cfg := by
   have hcs := tc_cases s
   generalize transportCheck s = r at hcs ⊢
   cases hcs with
+  | stopped _ => unfold stopCheck; split <;> rfl
   | giveUp _ => exact setDone_cfg _ _
   | wait => rfl
   | now => rfl
@@ -218,8 +227,7 @@ theorem failRetry_cfg (i : Nat) (f : Bool) (s : State) : (failRetry i f s).1.cfg
   · exact tc_cfg _
   · exact tc_cfg _
 
-theorem joinOn_cfg (i : Nat) (s : State) : (joinOn i s).cfg = s.cfg := by
-  unfold joinOn; split <;> rfl
+theorem joinOn_cfg (i : Nat) (s : State) : (joinOn i s).cfg = s.cfg := rfl
 
 theorem sessionDone_cfg (i : Nat) (f : Bool) (s : State) : (sessionDone i f s).1.cfg = s.cfg := by
   unfold sessionDone; split
@@ -261,7 +269,7 @@ open Spec
 /-! ### error path, clean end -/
 
 theorem failRetry_ok {c : Conf} {s : State} {k : Core} (h : RelM c s k) (i : Nat) (f : Bool) :
-    StepOK c s.cfg.hasMain k (failRetry i f s) := by
+    StepOK c k (failRetry i f s) := by
   unfold failRetry
   split
   · have h1 : RelM c { s with trs := updAt Tr.failed s.trs i } (k.feed c (.fatal i)) :=
@@ -272,7 +280,7 @@ theorem failRetry_ok {c : Conf} {s : State} {k : Core} (h : RelM c s k) (i : Nat
   · exact tc_ok h
 
 theorem sessionDone_ok {c : Conf} {s : State} {k : Core} (h : RelM c s k) (i : Nat) (f : Bool) :
-    StepOK c s.cfg.hasMain k (sessionDone i f s) := by
+    StepOK c k (sessionDone i f s) := by
   unfold sessionDone
   cases hd : s.done with
   | none =>
@@ -287,31 +295,29 @@ theorem sessionDone_ok {c : Conf} {s : State} {k : Core} (h : RelM c s k) (i : N
     · have := (failRetry_ok h i f).wrap (out := .lateDone true :: (failRetry i f s).2)
         (pre := [.lateDone true]) (post := []) (k := k) (by simp) (by simp [Obs.quiet]) (by simp [feedAll]) (by simp)
       exact this
-    · refine ⟨ChecksOK.quiet _ _ _ _ (by simp [Obs.quiet]), ⟨?_, ?_⟩⟩
+    · refine ⟨ChecksOK.quiet _ _ _ (by simp [Obs.quiet]), ⟨?_, ?_⟩⟩
       · have hT := h.t
         rw [hd] at hT
         simpa [feedAll] using hT
       · simp [PhaseOK, hd]
 
 theorem joinOn_trs (i : Nat) (s : State) :
-    (joinOn i s).trs = if s.cfg.hasMain then updAt (fun t => { t.reset with successes := 1 }) s.trs i else s.trs := by
-  unfold joinOn; split <;> simp_all
+    (joinOn i s).trs = updAt (fun t => { t.reset with successes := 1 }) s.trs i := rfl
 
-theorem joinOn_done (i : Nat) (s : State) : (joinOn i s).done = s.done := by
-  unfold joinOn; split <;> rfl
+theorem joinOn_done (i : Nat) (s : State) : (joinOn i s).done = s.done := rfl
 
-theorem joinOn_cursor (i : Nat) (s : State) : (joinOn i s).cursor = s.cursor := by
-  unfold joinOn; split <;> rfl
+theorem joinOn_cursor (i : Nat) (s : State) : (joinOn i s).cursor = s.cursor := rfl
+
+theorem joinOn_stopping (i : Nat) (s : State) : (joinOn i s).stopping = s.stopping := rfl
 
 /-- after WELCOME on transport `i` -/
 theorem RelM.join {c : Conf} {s : State} {k : Core} (h : RelM c s k) (i n : Nat) :
     RelM c (joinOn i { s with nsess := n }) (k.feed c (.join i)) := by
   constructor
-  · rw [joinOn_trs, joinOn_cfg, joinOn_done]
+  · rw [joinOn_trs, joinOn_done]
     exact h.t.join i
   · rw [joinOn_cursor]
-    have : (k.feed c (.join i)).last = k.last := by
-      simp only [Core.feed]; split <;> rfl
+    have : (k.feed c (.join i)).last = k.last := rfl
     rw [this]; exact h.cur
 
 theorem RelM.core_congr {c : Conf} {s : State} {k k' : Core} (h : RelM c s k)
@@ -349,7 +355,7 @@ theorem phase_waiting {c : Conf} {s : State} {k : Core} (h : Rel c s k) {i : Nat
     (hp : s.phase = .waiting i d) :
     ∃ t, s.trs[i]? = some t ∧ t.canReconnect = true ∧ t.attempts ≠ 0
         ∧ ((0 ≤ (c.maxD i).num) → d.le (c.maxD i) = true)
-        ∧ (c.resetOnJoin = s.cfg.hasMain → firstElig c k (startOf k.last) = some i)
+        ∧ firstElig c k (startOf k.last) = some i
         ∧ s.cursor = (i + 1) % c.n := by
   have := h.ph; unfold PhaseOK at this; rw [hp] at this; exact this
 
@@ -360,12 +366,11 @@ theorem phase_conn {c : Conf} {s : State} {k : Core} (h : Rel c s k) {i : Nat}
   rcases hp with hp | hp | hp <;> (rw [hp] at this; exact this)
 
 theorem onOutcome_ok {c : Conf} {s : State} {k : Core} (h : Rel c s k) (i : Nat) (hp : s.phase = .connecting i)
-    (o : Outcome) (f : Bool) : StepOK c s.cfg.hasMain k (onOutcome i o f s) := by
+    (o : Outcome) (f : Bool) : StepOK c k (onOutcome i o f s) := by
   obtain ⟨_, hcur⟩ := phase_conn h (Or.inl hp)
   have hM : RelM c s k := h.toM hcur
   have hMn : ∀ n, RelM c { s with nsess := n } k := fun n => ⟨hM.t, hM.cur⟩
   have hJ : ∀ n, RelM c (joinOn i { s with nsess := n }) (k.feed c (.join i)) := fun n => hM.join i n
-  have ecfg : ∀ n, (joinOn i { s with nsess := n }).cfg = s.cfg := fun n => by rw [joinOn_cfg]
   cases o with
   | refused =>
     have h1 : RelM c { s with trs := updAt (fun t => { t with failures := t.failures + (if s.cfg.aio then 2 else 1) }) s.trs i } k :=
@@ -386,7 +391,6 @@ theorem onOutcome_ok {c : Conf} {s : State} {k : Core} (h : Rel c s k) (i : Nat)
       (pre := .fail i :: joinedPre s.cfg s.nsess i ++ sfire s.cfg .leave s.nsess)
       (post := sfire s.cfg .disconnect s.nsess) (by simp [onOutcome])
       (by simp [List.all_append, Obs.quiet]) (by simp [feedAll_append, feedAll_cons]) (by simp)
-    rw [ecfg] at this
     exact this
   | joinedLeave =>
     have hC : RelM c (joinOn i { s with nsess := s.nsess + 1 }) ((k.feed c (.join i)).feed c (.cleanEnd i)) :=
@@ -396,7 +400,6 @@ theorem onOutcome_ok {c : Conf} {s : State} {k : Core} (h : Rel c s k) (i : Nat)
       (pre := joinedPre s.cfg s.nsess i ++ [.cleanEnd i] ++ sfire s.cfg .leave s.nsess)
       (post := sfire s.cfg .disconnect s.nsess) (by simp [onOutcome])
       (by simp [List.all_append, Obs.quiet]) (by simp [feedAll_append, feedAll_cons, feedAll_nil]) (by simp)
-    rw [ecfg] at this
     exact this
   | mainReturns =>
     simp only [onOutcome]
@@ -409,7 +412,6 @@ theorem onOutcome_ok {c : Conf} {s : State} {k : Core} (h : Rel c s k) (i : Nat)
         (pre := joinedPre s.cfg s.nsess i ++ [.cleanEnd i] ++ sfire s.cfg .leave s.nsess)
         (post := sfire s.cfg .disconnect s.nsess) (by simp)
         (by simp [List.all_append, Obs.quiet]) (by simp [feedAll_append, feedAll_cons, feedAll_nil]) (by simp)
-      rw [ecfg] at this
       exact this
     · exact StepOK.stutter h
   | mainRaises =>
@@ -425,13 +427,12 @@ theorem onOutcome_ok {c : Conf} {s : State} {k : Core} (h : Rel c s k) (i : Nat)
         (post := sfire s.cfg .leave s.nsess ++ sfire s.cfg .disconnect s.nsess) (by simp)
         (by simp [List.all_append, Obs.quiet]) (by simp [feedAll_append, feedAll_cons, feedAll_nil])
         (by simp [List.all_append])
-      rw [ecfg] at this
       exact this
     · exact StepOK.stutter h
   | joined =>
     simp only [onOutcome]
     have hj := hJ (s.nsess + 1)
-    refine ⟨ChecksOK.quiet _ _ _ _ ((all_quiet_iff _).mp (by simp)), ⟨?_, ?_⟩⟩
+    refine ⟨ChecksOK.quiet _ _ _ ((all_quiet_iff _).mp (by simp)), ⟨?_, ?_⟩⟩
     · simpa using hj.t
     · obtain ⟨⟨t, hg⟩, _⟩ := phase_conn h (Or.inl hp)
       simp only [PhaseOK, feedAll_joinedPre]
@@ -441,9 +442,7 @@ theorem onOutcome_ok {c : Conf} {s : State} {k : Core} (h : Rel c s k) (i : Nat)
         · exact h
         · rw [List.getElem?_eq_none h] at hg; cases hg
       have : i < (joinOn i { s with nsess := s.nsess + 1 }).trs.length := by
-        rw [joinOn_trs]; split
-        · rw [updAt_length]; exact hl
-        · exact hl
+        rw [joinOn_trs, updAt_length]; exact hl
       exact ⟨_, List.getElem?_eq_getElem this⟩
 
 end Abverif.Comp
@@ -452,7 +451,7 @@ namespace Abverif.Comp
 open Spec
 
 theorem onSess_ok {c : Conf} {s : State} {k : Core} (h : Rel c s k) (e : SessEv) (f : Bool) :
-    StepOK c s.cfg.hasMain k (onSess e f s) := by
+    StepOK c k (onSess e f s) := by
   unfold onSess
   split
   · next i hp =>
@@ -482,53 +481,57 @@ theorem onSess_ok {c : Conf} {s : State} {k : Core} (h : Rel c s k) (e : SessEv)
 theorem Rel.feed_stop {c : Conf} {s : State} {k : Core} (h : Rel c s k) : Rel c s (k.feed c .stop) :=
   h.core_congr rfl rfl rfl rfl rfl
 
+theorem Rel.set_stopping {c : Conf} {s : State} {k : Core} (h : Rel c s k) :
+    Rel c { s with stopping := true } k := ⟨h.t, h.ph⟩
+
 theorem onStop_ok {c : Conf} {s : State} {k : Core} (h : Rel c s k) :
-    StepOK c s.cfg.hasMain k (onStop s) := by
+    StepOK c k (onStop s) := by
   unfold onStop
   split
   · exact StepOK.stutter h
   · next i d hp =>
     unfold Comp.setDone
+    dsimp only
     cases hd : s.done with
     | none =>
       have hT := h.feed_stop.t
       rw [hd] at hT
-      refine ⟨ChecksOK.append (a := [.stop]) (b := [.done true]) (ChecksOK.quiet _ _ _ _ (by simp [Obs.quiet]))
+      refine ⟨ChecksOK.append (a := [.stop]) (b := [.done true]) (ChecksOK.quiet _ _ _ (by simp [Obs.quiet]))
         (done_checks_true (by simpa [feedAll] using hT.done_eq)), ⟨?_, ?_⟩⟩
       · simpa [feedAll] using hT.setDone (ok := true)
       · simp [PhaseOK]
     | some b =>
-      refine ⟨ChecksOK.quiet _ _ _ _ (by simp [Obs.quiet]), ⟨?_, ?_⟩⟩
+      refine ⟨ChecksOK.quiet _ _ _ (by simp [Obs.quiet]), ⟨?_, ?_⟩⟩
       · have hT := h.feed_stop.t
-        simpa [feedAll] using hT
+        simpa [feedAll, hd] using hT
       · simp [PhaseOK, hd]
   · next i hp =>
     cases hd : s.done with
     | none =>
-      simp only []
+      dsimp only
       have hT := h.feed_stop.t
       rw [hd] at hT
-      refine ⟨ChecksOK.append (a := [.stop]) (b := [.done true]) (ChecksOK.quiet _ _ _ _ (by simp [Obs.quiet]))
+      refine ⟨ChecksOK.append (a := [.stop]) (b := [.done true]) (ChecksOK.quiet _ _ _ (by simp [Obs.quiet]))
         (done_checks_true (by simpa [feedAll] using hT.done_eq)), ⟨?_, ?_⟩⟩
       · simpa [feedAll] using hT.setDone (ok := true)
       · have := phase_conn h (Or.inl hp)
         simp only [PhaseOK, hp, feedAll, List.foldl_cons, List.foldl_nil]
         simpa [Core.feed] using this
     | some b =>
-      simp only []
-      refine ⟨ChecksOK.quiet _ _ _ _ (by simp [Obs.quiet]), ?_⟩
-      simpa [feedAll] using h.feed_stop
+      dsimp only
+      refine ⟨ChecksOK.quiet _ _ _ (by simp [Obs.quiet]), ?_⟩
+      simpa [feedAll, hd] using h.feed_stop.set_stopping
   · next i hp =>
-    refine ⟨ChecksOK.quiet _ _ _ _ (by simp [Obs.quiet]), ⟨?_, ?_⟩⟩
+    refine ⟨ChecksOK.quiet _ _ _ (by simp [Obs.quiet]), ⟨?_, ?_⟩⟩
     · simpa [feedAll] using h.feed_stop.t
     · have := phase_conn h (Or.inr (Or.inl hp))
       simp only [PhaseOK, feedAll, List.foldl_cons, List.foldl_nil]
       simpa [Core.feed] using this
-  · refine ⟨ChecksOK.quiet _ _ _ _ (by simp [Obs.quiet]), ?_⟩
-    simpa [feedAll] using h.feed_stop
+  · refine ⟨ChecksOK.quiet _ _ _ (by simp [Obs.quiet]), ?_⟩
+    simpa [feedAll] using h.feed_stop.set_stopping
 
 theorem step_ok {c : Conf} {s : State} {k : Core} (h : Rel c s k) (e : Event) :
-    StepOK c s.cfg.hasMain k (step s e) := by
+    StepOK c k (step s e) := by
   cases e with
   | start =>
     simp only [step]
